@@ -81,6 +81,9 @@ pub(super) fn previous_significant_token(
             {
                 Some(token.clone())
             }
+            // comments are trivia: the anchor of a comment that follows another comment is
+            // still the token before both of them
+            NodeOrToken::Node(node) if node.kind() == LuaSyntaxKind::Comment.into() => None,
             NodeOrToken::Node(node) => last_significant_token_in_node(node),
             _ => None,
         })
